@@ -27,16 +27,25 @@ import (
 	. "verifharness/common"
 )
 
+// Members.  A member is an id; its Go value is a mem (an integer, compared by ==) or, when
+// ptrMembers is set, a *pmem (a pointer, compared by identity: one pointer per id and case, as the
+// package's own tests do with *testPlayer).  Both implement collections.Comparable by comparing ids.
 type mem int64
+
+type pmem struct{ id int64 }
 
 // cmpMode selects what CompareTo returns (collections.Comparable promises only the sign):
 // 0, 1: -1 / 0 / +1;  2: the difference of the ids (any magnitude);  3: the extremes of int
 // (math.MinInt for "less", whose negation overflows, math.MaxInt for "greater").
-// It is derived from the case's seed (seed & 3), so a replay uses the same comparator.
-var cmpMode int
+// cmpMode, ptrMembers and decoy are derived from the case's seed (bits 0-1, 2, 3), so a replay
+// uses the same comparator, member kind and interleaving.
+var (
+	cmpMode    int
+	ptrMembers bool
+	ptrs       map[int64]*pmem
+)
 
-func (m mem) CompareTo(o collections.Comparable) int {
-	r := o.(mem)
+func cmpIDs(m, r int64) int {
 	switch cmpMode {
 	case 2:
 		return int(m - r) // ids are small: no overflow
@@ -58,10 +67,36 @@ func (m mem) CompareTo(o collections.Comparable) int {
 	return 0
 }
 
+func idOf(c collections.Comparable) int64 {
+	switch v := c.(type) {
+	case mem:
+		return int64(v)
+	case *pmem:
+		return v.id
+	}
+	return -1 << 62
+}
+
+func (m mem) CompareTo(o collections.Comparable) int   { return cmpIDs(int64(m), idOf(o)) }
+func (m *pmem) CompareTo(o collections.Comparable) int { return cmpIDs(m.id, idOf(o)) }
+
+// mk returns the member value of an id
+func mk(id int64) collections.Comparable {
+	if !ptrMembers {
+		return mem(id)
+	}
+	p, ok := ptrs[id]
+	if !ok {
+		p = &pmem{id}
+		ptrs[id] = p
+	}
+	return p
+}
+
 func members(l []collections.Comparable) Sx {
 	r := make([]int64, len(l))
 	for i, x := range l {
-		r[i] = int64(x.(mem))
+		r[i] = idOf(x)
 	}
 	return Ints(r...)
 }
@@ -80,40 +115,75 @@ func probe(s *zset.SortedSet) Sx {
 	for i, n := range nodes {
 		e := int64(-1 << 62)
 		if n.Ele != nil {
-			e = int64(n.Ele.(mem))
+			e = idOf(n.Ele)
 		}
 		ns[i] = List(Int(n.Score), Int(e), ints(n.Spans), ints(n.Forwards), Int(int64(n.Backward)))
 	}
 	d := s.VerifDict()
 	keys := make([]int64, 0, len(d))
-	for k := range d {
-		keys = append(keys, int64(k.(mem)))
+	byID := map[int64]int64{}
+	for k, v := range d {
+		keys = append(keys, idOf(k))
+		byID[idOf(k)] = v
 	}
 	sort.Slice(keys, func(i, j int) bool { return keys[i] < keys[j] })
 	ds := make([]Sx, len(keys))
 	for i, k := range keys {
-		ds[i] = Ints(k, d[mem(k)])
+		ds[i] = Ints(k, byID[k])
 	}
 	return List(Int(4), List(ints(head.Spans), ints(head.Forwards)), ListOf(ns), Int(int64(tail)), Int(int64(length)), Int(int64(level)), ListOf(ds))
 }
 
+// a node pointer as (6 kind score member): kind 0 nil, 1 the header (no member), 2 a node
+func nodeSx(n *zset.ZSkipListNode) Sx {
+	switch {
+	case n == nil:
+		return Ints(6, 0, 0, 0)
+	case n.Ele == nil:
+		return Ints(6, 1, 0, 0)
+	}
+	return Ints(6, 2, n.Score, idOf(n.Ele))
+}
+
 func run(in Sx) Sx {
-	rand.Seed(in.At(0).Int64())
-	cmpMode = int(in.At(0).Int64() & 3)
+	seed := in.At(0).Int64()
+	rand.Seed(seed)
+	cmpMode = int(seed & 3)
+	ptrMembers = seed&4 != 0
+	ptrs = map[int64]*pmem{}
+	decoy := seed&8 != 0
 	ops := in.At(1)
 	s := zset.NewSortedSet()
+	// a second set used between the calls on s (only when decoy): anything the package shares
+	// between sets would show on s
+	other := zset.NewSortedSet()
 	res := make([]Sx, 0, ops.Len())
 	for k := 0; k < ops.Len(); k++ {
 		op := ops.At(k)
 		var r Sx
 		arg := func(i int) int64 { return op.At(i).Int64() }
+		if decoy && k >= 6 {
+			Catch(func() {
+				switch k % 5 {
+				case 0, 1:
+					other.Add(mk(int64(1000+k%17)), int64(k%3))
+				case 2:
+					other.Remove(mk(int64(1000 + (k+5)%17)))
+				case 3:
+					other.GetRank(mk(int64(1000+k%17)), k%2 == 0)
+					other.GetRange(0, -1, false)
+				default:
+					other.RemoveRangeByRank(0, 1)
+				}
+			})
+		}
 		p, _ := Catch(func() {
 			switch op.At(0).AsInt() {
 			case 0:
-				b := s.Add(mem(arg(1)), arg(2))
-				r = List(Int(0), Bool(b), Int(int64(s.VerifHeightOf(mem(arg(1))))))
+				b := s.Add(mk(arg(1)), arg(2))
+				r = List(Int(0), Bool(b), Int(int64(s.VerifHeightOf(mk(arg(1))))))
 			case 1:
-				r = List(Int(0), Bool(s.Remove(mem(arg(1)))))
+				r = List(Int(0), Bool(s.Remove(mk(arg(1)))))
 			case 2:
 				r = List(Int(1), Int(int64(s.RemoveRangeByScore(arg(1), arg(2)))))
 			case 3:
@@ -121,9 +191,9 @@ func run(in Sx) Sx {
 			case 4:
 				r = List(Int(1), Int(int64(s.Count(arg(1), arg(2)))))
 			case 5:
-				r = List(Int(1), Int(int64(s.GetRank(mem(arg(1)), arg(2) != 0))))
+				r = List(Int(1), Int(int64(s.GetRank(mk(arg(1)), arg(2) != 0))))
 			case 6:
-				r = List(Int(1), Int(s.GetScore(mem(arg(1)))))
+				r = List(Int(1), Int(s.GetScore(mk(arg(1)))))
 			case 7:
 				r = List(Int(2), members(s.GetRange(int(arg(1)), int(arg(2)), arg(3) != 0)))
 			case 8:
@@ -132,6 +202,36 @@ func run(in Sx) Sx {
 				r = List(Int(1), Int(int64(s.Len())))
 			case 10:
 				r = probe(s)
+			case 11, 12: // walk the list through the exported node accessors
+				zsl := s.VerifList()
+				var l []Sx
+				n := zsl.HeadNode()
+				if op.At(0).AsInt() == 12 {
+					n = zsl.TailNode()
+				}
+				for steps := 0; n != nil && steps <= zsl.Len()+2; steps++ {
+					l = append(l, Ints(n.Score, idOf(n.Ele)))
+					if op.At(0).AsInt() == 12 {
+						n = n.Before()
+					} else {
+						n = n.Next()
+					}
+				}
+				r = List(Int(5), ListOf(l))
+			case 13:
+				r = List(Int(1), Int(int64(s.VerifList().Height())))
+			case 14:
+				r = List(Int(1), Int(int64(s.VerifList().GetRank(arg(1), mk(arg(2))))))
+			case 15:
+				r = nodeSx(s.VerifList().GetElementByRank(int(arg(1))))
+			case 16:
+				r = List(Int(0), Bool(s.VerifList().IsInRange(arg(1), arg(2))))
+			case 17:
+				r = nodeSx(s.VerifList().FirstInRange(arg(1), arg(2)))
+			case 18:
+				r = nodeSx(s.VerifList().LastInRange(arg(1), arg(2)))
+			case 19: // Delete of a member that is not in the set: nothing is unlinked, nil is returned
+				r = List(Int(0), Bool(s.VerifList().Delete(arg(1), mk(arg(2))) != nil))
 			default:
 				panic("bad opcode")
 			}
@@ -155,6 +255,7 @@ type zgen struct {
 	lastQuery Sx // the last read-only call issued (repeated right after mutating calls)
 	hasQuery  bool
 	Repeats   int
+	Directs   int
 	rng       *Rng
 	ops       []Sx
 	shadow    map[int64]int64 // member -> score (intended semantics; only used to aim the generator)
@@ -351,6 +452,75 @@ func (g *zgen) smallQuery() Sx {
 	return Ints(8, a, a, b2i(r.Bool()))
 }
 
+// a direct, read-only call of an exported ZSkipList / ZSkipListNode method (through the probe)
+func (g *zgen) direct() Sx {
+	r := g.rng
+	if r.Chance(1, 12) { // zsl.Delete of an id that is not in the set
+		e := int64(g.univ + r.Intn(3))
+		return Ints(19, g.bound(), e)
+	}
+	switch r.Intn(11) {
+	case 0, 1:
+		return Ints(11) // HeadNode().Next()...
+	case 2, 3:
+		return Ints(12) // TailNode().Before()...
+	case 4:
+		return Ints(13)
+	case 5, 6: // zsl.GetRank(score, ele): a member with its score, or an id that is not in the set
+		e := g.member()
+		if sc, ok := g.shadow[e]; ok {
+			return Ints(14, sc, e)
+		}
+		return Ints(14, g.bound(), e)
+	case 7: // GetElementByRank: 0 (the header), 1..len, beyond, negative, the limits of int
+		k := g.rankIdx()
+		if r.Bool() {
+			k = int64(r.Intn(len(g.shadow) + 2))
+		}
+		return Ints(15, k)
+	case 8:
+		a, b := g.scoreRange()
+		return Ints(16, a, b)
+	case 9:
+		a, b := g.scoreRange()
+		return Ints(17, a, b)
+	}
+	a, b := g.scoreRange()
+	return Ints(18, a, b)
+}
+
+// empty the set completely (one of the four ways), look at the empty set, fill it again
+func (g *zgen) drainAndReuse() {
+	r := g.rng
+	switch r.Intn(3) {
+	case 0:
+		g.add(Ints(3, 0, -1))
+	case 1:
+		g.add(Ints(2, math.MinInt64, math.MaxInt64))
+	default:
+		keys := make([]int64, 0, len(g.shadow))
+		for m := range g.shadow {
+			keys = append(keys, m)
+		}
+		sort.Slice(keys, func(i, j int) bool { return keys[i] < keys[j] })
+		for _, m := range keys {
+			g.add(Ints(1, m))
+		}
+	}
+	g.shadow = map[int64]int64{}
+	g.add(Ints(9))
+	g.add(g.direct())
+	g.add(Ints(7, 0, -1, b2i(r.Bool())))
+	g.add(Ints(4, math.MinInt64, math.MaxInt64))
+	if r.Bool() {
+		g.add(Ints(10))
+	}
+	for k := 1 + r.Intn(6); k > 0; k-- {
+		g.doAdd(g.member()%int64(g.univ), g.score())
+	}
+	g.add(g.direct())
+}
+
 // one step of a history.  Around every mutating call: now and then the same read-only call is
 // issued right before and right after it, or the previous read-only call of the history is
 // repeated right after it (stale memoised answers show exactly there)
@@ -402,6 +572,15 @@ func (g *zgen) mixed(allowBig bool) {
 	r := g.rng
 	if r.Chance(1, 8) {
 		g.rankSandwich()
+		return
+	}
+	if r.Chance(1, 6) {
+		g.add(g.direct())
+		g.Directs++
+		return
+	}
+	if len(g.shadow) <= 40 && r.Chance(1, 60) {
+		g.drainAndReuse()
 		return
 	}
 	var q Sx
@@ -522,7 +701,13 @@ func (g *zgen) shadowRemoveRanks(a, b int64) {
 	}
 }
 
-var repeatsTotal int
+var repeatsTotal, directsTotal int
+
+// seeds of math/rand for which one of the first four randLevel() calls returns 10, 11, 12, or
+// more than ZSKIPLIST_MAXLEVEL (13, 14: the clamp) — found by an offline search over 2*10^7 seeds;
+// a node that tall never appears otherwise (probability 4^-12 per node)
+var tallSeeds = []int64{204056, 29694, 627879, 759575, 1251540, 1334128, 283992, 868134,
+	1454918, 212281, 5900707, 6101084, 18440440, 2480283, 14463545, 16619191}
 
 func genHistory(rng *Rng, kind string) (Sx, bool) {
 	g := &zgen{rng: rng, shadow: map[int64]int64{}}
@@ -534,6 +719,9 @@ func genHistory(rng *Rng, kind string) (Sx, bool) {
 	case "medium":
 		g.univ = rng.PickInt(6, 8, 10, 20, 30)
 		nops = rng.Range(15, 50)
+	case "tall":
+		g.univ = rng.PickInt(6, 12, 30)
+		nops = rng.Range(10, 40)
 	default:
 		g.univ = rng.PickInt(50, 100, 200)
 		nops = rng.Range(20, 50)
@@ -591,24 +779,38 @@ func genHistory(rng *Rng, kind string) (Sx, bool) {
 	}
 	g.add(Ints(10))
 	repeatsTotal += g.Repeats
-	return List(Int(int64(rng.Intn(1<<30))), ListOf(g.ops)), g.tieOps > 0
+	directsTotal += g.Directs
+	seed := int64(rng.Intn(1 << 30))
+	if kind == "tall" {
+		seed = tallSeeds[rng.Intn(len(tallSeeds))]
+	}
+	return List(Int(seed), ListOf(g.ops)), g.tieOps > 0
 }
 
 func gen(a Args, out *Out) {
-	defer func() { out.CountN("read-only call repeated right after a mutating call", repeatsTotal) }()
+	defer func() {
+		out.CountN("read-only call repeated right after a mutating call", repeatsTotal)
+		out.CountN("direct calls of exported ZSkipList methods", directsTotal)
+	}()
 	rng := NewRng(a.Seed)
-	counts := map[string]int{"small": 500, "medium": 260, "large": 40}
+	counts := map[string]int{"small": 500, "medium": 260, "large": 40, "tall": 32}
 	if a.Thorough() {
-		counts = map[string]int{"small": 6000, "medium": 4000, "large": 400}
+		counts = map[string]int{"small": 6000, "medium": 4000, "large": 400, "tall": 160}
 	}
-	names := []string{"", "Remove", "RemoveRangeByScore", "RemoveRangeByRank", "Count", "GetRank", "GetScore", "GetRange", "GetRangeByScore", "Len", "probe"}
+	names := []string{"", "Remove", "RemoveRangeByScore", "RemoveRangeByRank", "Count", "GetRank", "GetScore", "GetRange", "GetRangeByScore", "Len", "probe", "walk-forward", "walk-backward", "Height", "zsl.GetRank", "GetElementByRank", "IsInRange", "FirstInRange", "LastInRange", "zsl.Delete(absent)"}
 	names[0] = "Add"
-	for _, kind := range []string{"small", "medium", "large"} {
+	for _, kind := range []string{"small", "medium", "large", "tall"} {
 		r := rng.Fork()
 		for k := 0; k < counts[kind]; k++ {
 			in, nontrivial := genHistory(r, kind)
 			obs := run(in)
 			out.Count([]string{"comparator:-1/0/+1", "comparator:-1/0/+1", "comparator:id-difference", "comparator:MinInt/0/MaxInt"}[in.At(0).Int64()&3])
+			if in.At(0).Int64()&4 != 0 {
+				out.Count("members:pointers")
+			}
+			if in.At(0).Int64()&8 != 0 {
+				out.Count("second-set-interleaved")
+			}
 			out.Case(kind, nontrivial, in, obs)
 			ops := in.At(1)
 			for i := 0; i < ops.Len(); i++ {
